@@ -141,7 +141,6 @@ def check(cfg, out, stats):
     if cfg["kind"] == "eventmap":
         from .c13_eventmap import check_eventmap
         return check_eventmap(cfg, out, stats)
-    run_queries(__import__(__name__, fromlist=["x"]), cfg, out, stats, cosim_cycles=16)
     h = maker(cfg)()
     out.extra = {"concrete_index_checks": 1}
     if not _index_oracle(h, cfg):
@@ -149,6 +148,8 @@ def check(cfg, out, stats):
                                "what": f"C13 EventMap numbering is not dense/stable/first-addition for add order {cfg['order']}",
                                "query": "eventmap-index-concrete", "cfg": cfg, "stimulus": [], "prefix": 0, "k": 0,
                                "detail": {}})
+        return      # bit k of the masks is meaningless when the numbering is wrong
+    run_queries(__import__(__name__, fromlist=["x"]), cfg, out, stats, cosim_cycles=16)
 
 
 def replay(v):
